@@ -147,8 +147,8 @@ theorem send_chanLen (r : RQ) (msg : Nat) (h : r.chanLen < chanCap) :
 theorem runQuery_eq (s : St) (r : RQ) :
     runQuery s r =
       if r.cancelled then s
-      else { s with running := put r.qid (send (send r 1).1 2).1 s.running,
-                    blocked := s.blocked || (send r 1).2 || (send (send r 1).1 2).2 } := by
+      else { s with running := put r.qid (send (send (arm r) 1).1 2).1 s.running,
+                    blocked := s.blocked || (send (arm r) 1).2 || (send (send (arm r) 1).1 2).2 } := by
   unfold runQuery; split <;> rfl
 
 theorem runQuery_cancelled (s : St) (r : RQ) (h : r.cancelled = true) : runQuery s r = s := by
@@ -177,11 +177,127 @@ theorem runQuery_blocked (s : St) (r : RQ) (hb : s.blocked = false) (hr : r.chan
     (runQuery s r).blocked = false := by
   rw [runQuery_eq]; split
   · exact hb
-  · have h1 : (send r 1).2 = false := send_not_blocked r 1 (by omega)
-    have h2 : (send (send r 1).1 2).2 = false := by
+  · have ha : (arm r).chanLen = r.chanLen := rfl
+    have h1 : (send (arm r) 1).2 = false := send_not_blocked (arm r) 1 (by omega)
+    have h2 : (send (send (arm r) 1).1 2).2 = false := by
       apply send_not_blocked
-      rw [send_chanLen r 1 (by omega)]; omega
+      rw [send_chanLen (arm r) 1 (by omega)]; omega
     simp [hb, h1, h2]
+
+/-! ### the operations factored out of `step` -/
+
+theorem startQuery_waiting_bounded (s : St) (q : Nat) (force coord : Bool)
+    (h : s.waiting.length ≤ maxWaiting) : (startQuery s q force coord).1.waiting.length ≤ maxWaiting := by
+  simp only [startQuery]
+  split
+  · exact h
+  · split
+    · rw [runQuery_waiting]; exact h
+    · split
+      · exact h
+      · rename_i hlt
+        simp only [List.length_append, List.length_cons, List.length_nil]
+        simp only [ge_iff_le, Nat.not_le] at hlt
+        omega
+
+theorem startQuery_nodup (s : St) (q : Nat) (force coord : Bool) (h : (s.running.map Prod.fst).Nodup) :
+    ((startQuery s q force coord).1.running.map Prod.fst).Nodup := by
+  simp only [startQuery]
+  split
+  · exact h
+  · split
+    · exact runQuery_nodup _ _ h
+    · split <;> exact h
+
+theorem cancelQuery_waiting_le (s : St) (q : Nat) :
+    (cancelQuery s q).1.waiting.length ≤ s.waiting.length := by
+  have hle := length_removeFirstWaiting_le q s.waiting
+  simp only [cancelQuery]
+  split
+  · split
+    · exact Nat.le_refl _
+    · exact hle
+  · exact hle
+
+theorem cancelQuery_nodup (s : St) (q : Nat) (h : (s.running.map Prod.fst).Nodup) :
+    ((cancelQuery s q).1.running.map Prod.fst).Nodup := by
+  simp only [cancelQuery]
+  split
+  · split <;> exact h
+  · exact nodup_keys_put _ _ _ h
+
+theorem selfSend_waiting (s : St) (q msg : Nat) : (selfSend s q msg).1.waiting = s.waiting := by
+  simp only [selfSend]
+  split
+  · rfl
+  · split <;> rfl
+
+theorem selfSend_nodup (s : St) (q msg : Nat) (h : (s.running.map Prod.fst).Nodup) :
+    ((selfSend s q msg).1.running.map Prod.fst).Nodup := by
+  simp only [selfSend]
+  split
+  · exact h
+  · split
+    · exact nodup_keys_put _ _ _ h
+    · exact h
+
+theorem fireTimeout_waiting_le (s : St) (q : Nat) :
+    (fireTimeout s q).1.waiting.length ≤ s.waiting.length := by
+  simp only [fireTimeout]
+  split
+  · exact Nat.le_refl _
+  · split
+    · exact Nat.le_refl _
+    · split
+      · exact cancelQuery_waiting_le _ q
+      · exact Nat.le_refl _
+
+theorem fireTimeout_nodup (s : St) (q : Nat) (h : (s.running.map Prod.fst).Nodup) :
+    ((fireTimeout s q).1.running.map Prod.fst).Nodup := by
+  simp only [fireTimeout]
+  split
+  · exact h
+  · split
+    · exact h
+    · split
+      · exact cancelQuery_nodup _ q (nodup_keys_put _ _ _ h)
+      · exact h
+
+theorem restartQuery_waiting_bounded (s : St) (q nq : Nat) (force : Bool)
+    (h : s.waiting.length ≤ maxWaiting) : (restartQuery s q nq force).1.waiting.length ≤ maxWaiting := by
+  simp only [restartQuery]
+  split
+  · exact h
+  · split
+    · exact h
+    · split
+      · exact h
+      · split
+        · exact h
+        · split
+          · rw [runQuery_waiting]; exact h
+          · split
+            · exact h
+            · rename_i hlt
+              simp only [List.length_append, List.length_cons, List.length_nil]
+              simp only [ge_iff_le, Nat.not_le] at hlt
+              omega
+
+theorem restartQuery_nodup (s : St) (q nq : Nat) (force : Bool) (h : (s.running.map Prod.fst).Nodup) :
+    ((restartQuery s q nq force).1.running.map Prod.fst).Nodup := by
+  have he := nodup_keys_erase q s.running h
+  simp only [restartQuery]
+  split
+  · exact h
+  · split
+    · exact h
+    · split
+      · exact he
+      · split
+        · exact he
+        · split
+          · exact runQuery_nodup _ _ he
+          · split <;> exact he
 
 /-! ### lifting step invariants over `run` -/
 
@@ -209,18 +325,12 @@ theorem run_inv_of (P : St → Prop) (Q : Op → Prop)
 theorem step_waiting_bounded (s : St) (op : Op) (h : s.waiting.length ≤ maxWaiting) :
     (step s op).1.waiting.length ≤ maxWaiting := by
   cases op with
-  | start q force =>
-    simp only [step]
-    split
-    · exact h
-    · split
-      · rw [runQuery_waiting]; exact h
-      · split
-        · exact h
-        · rename_i hlt
-          simp only [List.length_append, List.length_cons, List.length_nil]
-          simp only [ge_iff_le, Nat.not_le] at hlt
-          omega
+  | start q force => exact startQuery_waiting_bounded s q force false h
+  | startc q force => exact startQuery_waiting_bounded s q force true h
+  | timeout q => exact Nat.le_trans (fireTimeout_waiting_le s q) h
+  | restart q nq force => exact restartQuery_waiting_bounded s q nq force h
+  | complete q => simp only [step]; rw [selfSend_waiting]; exact h
+  | error q => simp only [step]; rw [selfSend_waiting]; exact h
   | pull =>
     simp only [step]
     split
@@ -233,16 +343,7 @@ theorem step_waiting_bounded (s : St) (op : Op) (h : s.waiting.length ≤ maxWai
         show rs.length ≤ maxWaiting
         omega
     · exact h
-  | cancel q =>
-    have hle := length_removeFirstWaiting_le q s.waiting
-    simp only [step]
-    split
-    · split
-      · exact h
-      · show (removeFirstWaiting q s.waiting).length ≤ maxWaiting
-        omega
-    · show (removeFirstWaiting q s.waiting).length ≤ maxWaiting
-      omega
+  | cancel q => exact Nat.le_trans (cancelQuery_waiting_le s q) h
   | delete q =>
     simp only [step]
     split <;> exact h
@@ -254,13 +355,12 @@ theorem step_waiting_bounded (s : St) (op : Op) (h : s.waiting.length ≤ maxWai
 theorem step_nodup (s : St) (op : Op) (h : (s.running.map Prod.fst).Nodup) :
     ((step s op).1.running.map Prod.fst).Nodup := by
   cases op with
-  | start q force =>
-    simp only [step]
-    split
-    · exact h
-    · split
-      · exact runQuery_nodup _ _ h
-      · split <;> exact h
+  | start q force => exact startQuery_nodup s q force false h
+  | startc q force => exact startQuery_nodup s q force true h
+  | timeout q => exact fireTimeout_nodup s q h
+  | restart q nq force => exact restartQuery_nodup s q nq force h
+  | complete q => exact selfSend_nodup s q 4 h
+  | error q => exact selfSend_nodup s q 7 h
   | pull =>
     simp only [step]
     split
@@ -268,11 +368,7 @@ theorem step_nodup (s : St) (op : Op) (h : (s.running.map Prod.fst).Nodup) :
       · exact h
       · exact runQuery_nodup _ _ h
     · exact h
-  | cancel q =>
-    simp only [step]
-    split
-    · split <;> exact h
-    · exact nodup_keys_put _ _ _ h
+  | cancel q => exact cancelQuery_nodup s q h
   | delete q =>
     simp only [step]
     split
@@ -287,28 +383,38 @@ theorem step_nodup (s : St) (op : Op) (h : (s.running.map Prod.fst).Nodup) :
 /-- invariant for C17.5: nothing blocked so far and every queued object has an empty channel -/
 def NoBlock (s : St) : Prop := s.blocked = false ∧ ∀ r ∈ s.waiting, r.chanLen = 0
 
-def NotCancel (op : Op) : Prop := ∀ q, op ≠ Op.cancel q
+def NotCancel (op : Op) : Prop := op.admissionOnly = true
+
+theorem startQuery_noBlock (s : St) (q : Nat) (force coord : Bool) (h : NoBlock s) :
+    NoBlock (startQuery s q force coord).1 := by
+  obtain ⟨hb, hw⟩ := h
+  simp only [startQuery]
+  split
+  · exact ⟨hb, hw⟩
+  · split
+    · refine ⟨runQuery_blocked _ _ hb (by simp [chanCap]), ?_⟩
+      rw [runQuery_waiting]; exact hw
+    · split
+      · exact ⟨hb, hw⟩
+      · refine ⟨hb, ?_⟩
+        intro r hr
+        simp only [List.mem_append, List.mem_singleton] at hr
+        rcases hr with hr | hr
+        · exact hw r hr
+        · subst hr; rfl
 
 theorem step_noBlock (s : St) (op : Op) (hop : NotCancel op) (h : NoBlock s) :
     NoBlock (step s op).1 := by
-  obtain ⟨hb, hw⟩ := h
   cases op with
-  | start q force =>
-    simp only [step]
-    split
-    · exact ⟨hb, hw⟩
-    · split
-      · refine ⟨runQuery_blocked _ _ hb (by simp [chanCap]), ?_⟩
-        rw [runQuery_waiting]; exact hw
-      · split
-        · exact ⟨hb, hw⟩
-        · refine ⟨hb, ?_⟩
-          intro r hr
-          simp only [List.mem_append, List.mem_singleton] at hr
-          rcases hr with hr | hr
-          · exact hw r hr
-          · subst hr; rfl
+  | start q force => exact startQuery_noBlock s q force false h
+  | startc q force => exact startQuery_noBlock s q force true h
+  | timeout q => simp [NotCancel, Op.admissionOnly] at hop
+  | restart q nq force => simp [NotCancel, Op.admissionOnly] at hop
+  | complete q => simp [NotCancel, Op.admissionOnly] at hop
+  | error q => simp [NotCancel, Op.admissionOnly] at hop
+  | cancel q => simp [NotCancel, Op.admissionOnly] at hop
   | pull =>
+    obtain ⟨hb, hw⟩ := h
     simp only [step]
     split
     · split
@@ -320,11 +426,12 @@ theorem step_noBlock (s : St) (op : Op) (hop : NotCancel op) (h : NoBlock s) :
         intro x hx
         exact hw x (by rw [heq]; exact List.mem_cons_of_mem _ hx)
     · exact ⟨hb, hw⟩
-  | cancel q => exact absurd rfl (hop q)
   | delete q =>
+    obtain ⟨hb, hw⟩ := h
     simp only [step]
     split <;> exact ⟨hb, hw⟩
   | drain q =>
+    obtain ⟨hb, hw⟩ := h
     simp only [step]
     split <;> exact ⟨hb, hw⟩
 
@@ -353,7 +460,7 @@ theorem step_delete_lookup (s : St) (q : Nat) :
 
 theorem step_start_blocked (s : St) (q : Nat) (force : Bool) (h : s.blocked = false) :
     (step s (Op.start q force)).1.blocked = false := by
-  simp only [step]
+  simp only [step, startQuery]
   split
   · exact h
   · split
@@ -364,7 +471,7 @@ theorem step_cancel_effective (s : St) (q : Nat)
     (huniq : (s.waiting.filter (fun r => r.qid == q)).length ≤ 1) :
     (∀ r ∈ (step s (Op.cancel q)).1.waiting, r.qid ≠ q) ∧
     (∀ r, lookup q (step s (Op.cancel q)).1.running = some r → r.cancelled = true) := by
-  simp only [step]
+  simp only [step, cancelQuery]
   split
   · rename_i hl
     split
